@@ -1,0 +1,8 @@
+"""Verification hooks (inert unless the environment variable CNFGEN_VERIF is set to 1)
+
+The hooks only record information on the side; they never change what
+the library computes.
+"""
+import os
+
+ENABLED = os.environ.get("CNFGEN_VERIF") == "1"
